@@ -46,6 +46,7 @@ type ProcSpec struct {
 	WriteIdiom bool             `json:"writeidiom,omitempty"`
 	JoinSep    string           `json:"joinsep,omitempty"` // kind "joiner": {i:x|join:SEP}
 	JoinMod    string           `json:"joinmod,omitempty"` // kind "joiner": extra modifier (basename, %.txt)
+	JoinSep2   string           `json:"joinsep2,omitempty"` // kind "joiner": separator of a second joined in-port y
 	CmdSuffix  string           `json:"cmdsuffix,omitempty"`
 }
 
@@ -66,6 +67,7 @@ type WSpec struct {
 	RunTo    []string   `json:"runto,omitempty"`
 	RunToHow string     `json:"runtohow,omitempty"` // "name" | "regex" | "procs"
 	Direct   string     `json:"direct,omitempty"`   // narrow-seam driver instead of a workflow (direct.go)
+	MkDirs   []string   `json:"mkdirs,omitempty"` // directories created before the run
 	Sources  []string   `json:"-"`                  // files created before the run (content = path)
 }
 
@@ -116,7 +118,25 @@ func contentOf(proc, port string, ins map[string]string, params map[string]strin
 	return proc + "." + port + "(" + strings.Join(parts, ",") + ";" + strings.Join(pp, ",") + ")"
 }
 
+// cwdPrefix: the scratch directory of the executions + "/"; absolute paths below it are
+// written relative in task keys and in the reference model.
+var cwdPrefix string
+
+func normPath(p string) string {
+	if cwdPrefix != "" && strings.HasPrefix(p, cwdPrefix) {
+		return p[len(cwdPrefix):]
+	}
+	return p
+}
+
 func taskKey(proc string, ins map[string]string, params map[string]string) string {
+	if cwdPrefix != "" {
+		n := map[string]string{}
+		for k, v := range ins {
+			n[k] = normPath(v)
+		}
+		ins = n
+	}
 	ik := make([]string, 0, len(ins))
 	for k := range ins {
 		ik = append(ik, k)
@@ -244,9 +264,15 @@ func (w *WSpec) build(env *Env) *built {
 			if ps.JoinMod != "" {
 				ph += "|" + ps.JoinMod
 			}
-			p := wf.NewProc(ps.Name, "vjoin {o:out} ["+ph+"}]")
+			pat := "vjoin {o:out} [" + ph + "}]"
+			if ps.JoinSep2 != "" {
+				pat += " [{i:y|join:" + ps.JoinSep2 + "}]"
+			}
+			p := wf.NewProc(ps.Name, pat)
 			p.SetOut("out", "joined.txt")
 			b.procs[ps.Name] = p
+		case "ppass":
+			b.procs[ps.Name] = newPPass(wf, ps.Name)
 		case "recorder":
 			b.procs[ps.Name] = newRecorder(wf, ps.Name)
 		default:
@@ -311,6 +337,27 @@ func (p *recorder) Run() {
 	defer p.CloseAllOutPorts()
 	for ip := range p.InPort("in").Chan {
 		vs.Note("recv:" + p.Name() + ":" + ip.Path())
+	}
+}
+
+// ppass is an ordinary custom process that forwards parameters from its param in-port to its
+// param out-port (a parameter producer that itself has an upstream).
+type ppass struct {
+	sp.BaseProcess
+}
+
+func newPPass(wf *sp.Workflow, name string) *ppass {
+	p := &ppass{BaseProcess: sp.NewBaseProcess(wf, name)}
+	p.InitInParamPort(p, "in")
+	p.InitOutParamPort(p, "out")
+	wf.AddProc(p)
+	return p
+}
+
+func (p *ppass) Run() {
+	defer p.CloseAllOutPorts()
+	for v := range p.InParamPort("in").Chan {
+		p.OutParamPort("out").Send(v)
 	}
 }
 
@@ -446,6 +493,12 @@ func (w *WSpec) referencePre(pre map[string]string) *Ref {
 				}
 			case "psrc":
 				paramEmit[p.Name+".out"] = append([]string{}, p.Items...)
+			case "ppass":
+				for _, e := range w.Edges {
+					if e.To == p.Name && e.Param {
+						paramEmit[p.Name+".out"] = append(paramEmit[p.Name+".out"], paramEmit[e.From+"."+e.FromPort]...)
+					}
+				}
 			case "tagger":
 				r.Emit[p.Name+".out"] = inStream["in"]
 				r.OrderOK[p.Name+".out"] = orderOK
@@ -460,20 +513,26 @@ func (w *WSpec) referencePre(pre map[string]string) *Ref {
 				r.OrderOK[p.Name+".split_file"] = orderOK
 			case "joiner":
 				members := []string{}
+				members2 := []string{}
 				for _, e := range w.Edges {
 					if e.To == p.Name {
 						// the sub-stream carrier comes from a "substream" process: its members are that process' input
 						for _, e2 := range w.Edges {
 							if e2.To == e.From {
-								members = append(members, r.Emit[e2.From+"."+e2.FromPort]...)
+								if e.ToPort == "y" {
+									members2 = append(members2, r.Emit[e2.From+"."+e2.FromPort]...)
+								} else {
+									members = append(members, r.Emit[e2.From+"."+e2.FromPort]...)
+								}
 							}
 						}
 					}
 				}
 				content := ""
-				for _, m := range members {
+				for _, m := range append(append([]string{}, members...), members2...) {
 					content += r.Files[m] + "\n"
 				}
+				r.Emit[p.Name+".members2"] = members2
 				t := &RefTask{Proc: p.Name, Key: taskKey(p.Name, nil, nil), Ins: map[string]string{}, Params: map[string]string{}, Outs: map[string]string{"out": "joined.txt"}}
 				r.Files["joined.txt"] = content
 				r.Tasks = append(r.Tasks, t)
@@ -520,7 +579,7 @@ func (w *WSpec) referencePre(pre map[string]string) *Ref {
 					}
 					t.Key = taskKey(p.Name, t.Ins, t.Params)
 					for _, o := range p.Outs {
-						path := expandPattern(o.Pattern, p.Name, t.Ins, t.Params)
+						path := normPath(expandPattern(o.Pattern, p.Name, t.Ins, t.Params))
 						t.Outs[o.Name] = path
 						if !o.Stream {
 							r.Files[path] = contentOf(p.Name, o.Name, inContent, t.Params)
